@@ -156,6 +156,23 @@ def closure_balance(ctx, prog, cfg, rule, O):
     for h in prog.fns.values():
         if not h.has_mir:
             continue
+        # captures that are references to a counter field (`&mut buf.size`, `&mut guard.initialized`): a store through
+        # them inside the closure is a bookkeeping event there
+        for b, i, st, is_term in h.positions(True):
+            if is_term or st["k"] != "assign" or st["rv"].get("k") != "aggregate" or st["rv"].get("agg") != "closure":
+                continue
+            g = closures.get(st["rv"].get("closure"))
+            if g is None:
+                continue
+            for fl in st["rv"].get("fields", []):
+                op = fl.get("op", {})
+                if "place" not in op or op["place"].get("proj") or not op["place"].get("ty", "").startswith("&mut usize"):
+                    continue
+                e = mir.strip_casts(h.deep_simplify(h.local_expr(op["place"]["local"], b, i)))
+                if isinstance(e, tuple) and e[:1] == ("ref",) and isinstance(e[1], tuple) and e[1][:1] == ("place",) and len(e[1]) == 3 and e[1][2]:
+                    last = [x for x in e[1][2] if isinstance(x, str)][-1:]
+                    if last and last[0] in ("size", "initialized"):
+                        O.capture_counters.setdefault(g.short, {})[fl["name"]] = last[0]
         for b, t in h.calls(True):
             if mir.is_local_callee(t):
                 continue
